@@ -121,7 +121,7 @@ def c09(ctx):
                       "validated by TLC against Layer A (LossOK with the floor at ret(Close) = everything, i.e. exactly the closed contents)")
 
 
-def seq_jobs(ctx, label, nshards, nprog, ops, keys, fss=("crashfs",)):
+def seq_jobs(ctx, label, nshards, nprog, ops, keys, fss=("crashfs",), extra=None):
     jobs, outs = [], []
     os.makedirs(ctx.path("tmp"), exist_ok=True)
     for i in range(nshards):
@@ -129,7 +129,7 @@ def seq_jobs(ctx, label, nshards, nprog, ops, keys, fss=("crashfs",)):
         out = ctx.path("rec-%s-%d.ndjson" % (label, i))
         outs.append(out)
         jobs.append(["seq", "-fs", fsn, "-n", str(nprog), "-ops", str(ops), "-keys", str(keys), "-dir", ctx.path("tmp"),
-                     "-seed", str(ctx.seed * 7919 + i * 104729 + 1), "-out", out])
+                     "-seed", str(ctx.seed * 7919 + i * 104729 + 1), "-out", out] + (extra or []))
     stats = ctx.vrun_parallel(jobs)
     add_stats(ctx, stats, label)
     return outs
@@ -159,4 +159,68 @@ def c01(ctx):
                       "every recording validated by TLC against Layer A (Lin/RetOk/ReadAll). distinct_nontrivial = programs")
 
 
-CHECKS = {"C01": c01, "C03": c03, "C04": c04, "C06": c06, "C09": c09}
+def c05(ctx):
+    q = ctx.quick()
+    wal_models(ctx, "crash", ["D8"])
+    rejs = regress(ctx) + fault_family(ctx, "compact-inject-crash", "crash", CORES, 10 if q else 80, 40, ["-inject", "-keys", "6"])
+    ctx.report_rejections(rejs, describe_generic)
+    h = ctx.cov["harness"]["compact-inject-crash"]
+    ctx.cov["evaluations"] = h.get("images", 0)
+    ctx.cov["distinct_nontrivial"] = h.get("distinct_images", 0)
+    ctx.assumptions += ["a writer placed at a yield point of Compact by the hook runs on the compacting goroutine while it holds no database lock; this is observationally a second goroutine scheduled exactly there"] + FAULT_ASSUME
+    return ctx.finish("model_checking", "random programs whose Compact calls have writers (put/delete/get/full read-back) injected at random subsets of the yield points of compaction "
+                      "(after the pick, before each seal, before EVERY record, before each removal) via the verif hook; crash images at every mutating call inside and outside Compact, reopened by the real code; "
+                      "validated by TLC against Layer A (Compact has no logical effect, ReadAll during compaction, CrashOK). The Wal model interleaves Put/Del with Pick/Seal/Step/Remove exhaustively")
+
+
+ALLFS = ("crashfs", "mem", "os", "osmmap")
+
+
+def c02(ctx):
+    q = ctx.quick()
+    wal_models(ctx, "crash", ["D11"])
+    outs = seq_jobs(ctx, "restart-alt", 8, 3 if q else 24, 220, 64, ("os", "osmmap"), ["-alt"])
+    outs += seq_jobs(ctx, "restart", 8, 3 if q else 24, 220, 64, ALLFS, ["-alt"])
+    rejs = regress(ctx) + ctx.validate(outs)
+    ctx.sample_from(outs[0], 1)
+    ctx.report_rejections(rejs, describe_generic)
+    h = ctx.cov["harness"]
+    ctx.cov["evaluations"] = sum(h[k].get("ops", 0) for k in ("restart-alt", "restart"))
+    ctx.cov["distinct_nontrivial"] = sum(h[k].get("programs", 0) for k in ("restart-alt", "restart"))
+    return ctx.finish("model_checking", "random histories over ~70 colliding keys (overflow chains, splits, free list, rollover, compaction) cut into sessions by Close/Open at random positions (about every 8th operation, including back-to-back restarts without writes); "
+                      "half of the runs alternate fs.OS and fs.OSMMap between sessions on the same directory; after every reopen: full read-back, Count, Has, Items and the recovery indicator; "
+                      "validated by TLC against Layer A (OpenClean: contents equal, recovered = FALSE). Wal model: Close/OpenClean with persisted Full flags, exhaustive")
+
+
+def c11(ctx):
+    q = ctx.quick()
+    lh_models(ctx)
+    outs = seq_jobs(ctx, "scan-steps", 12, 3 if q else 24, 300, 90, ALLFS, ["-scans"])
+    outs += seq_jobs(ctx, "scan-steps-compact", 4, 3 if q else 24, 200, 40, ("crashfs", "osmmap"), ["-scans", "-inject"])
+    rejs = regress(ctx, "C01") + ctx.validate(outs)
+    ctx.sample_from(outs[0], 1)
+    ctx.report_rejections(rejs, describe_generic)
+    h = ctx.cov["harness"]
+    ctx.cov["evaluations"] = sum(h[k].get("ops", 0) for k in ("scan-steps", "scan-steps-compact"))
+    ctx.cov["distinct_nontrivial"] = sum(h[k].get("programs", 0) for k in ("scan-steps", "scan-steps-compact"))
+    return ctx.finish("model_checking", "quiescent scans: a full Items scan in every read-back of C01-style histories (each live key exactly once, done on every further call). "
+                      "Concurrent scans: iterators stepped call by call (1-4 Next calls, then 0-2 writes, repeated; then drained) while puts over ~100 colliding keys split the chain under the cursor, deletes shift slots and compaction repoints them; "
+                      "validated by TLC against Layer A (ScanStart/ScanRet/ScanDone: truthful pairs, complete for untouched keys, exact when nobody wrote). LHIndex model: ScanExact and SplitMovesForward for every hash assignment")
+
+
+def c12(ctx):
+    q = ctx.quick()
+    outs = seq_jobs(ctx, "backup-inject", 12, 3 if q else 24, 120, 24, ALLFS, ["-backup"])
+    rejs = ctx.validate(outs)
+    ctx.sample_from(outs[0], 1)
+    ctx.report_rejections(rejs, describe_generic)
+    h = ctx.cov["harness"]
+    ctx.cov["evaluations"] = h["backup-inject"].get("ops", 0)
+    ctx.cov["distinct_nontrivial"] = h["backup-inject"].get("programs", 0)
+    ctx.assumptions += ["a writer placed at a yield point of Backup by the hook runs on the goroutine executing Backup while it holds no database lock (it holds the maintenance lock, which writers do not take)"]
+    return ctx.finish("model_checking", "random histories whose Backup calls have writers (puts with rollover, deletes, reads) injected at the yield points of Backup (after the size capture, before every segment copy, before the lock file is created); "
+                      "every backup directory is then opened by the real code and read back, the source is read back too; on crashfs, fs.Mem, fs.OS, fs.OSMMap; "
+                      "validated by TLC against Layer A (Backup linearizes once between call and return, BackupOpened = contents at that instant)")
+
+
+CHECKS = {"C02": c02, "C11": c11, "C12": c12, "C05": c05, "C01": c01, "C03": c03, "C04": c04, "C06": c06, "C09": c09}
